@@ -78,7 +78,7 @@ def res_plain(ms):
 
 # --------------------------------------------------------------------------- SolvedAllele
 
-@contract("aldy.solutions.SolvedAllele.mutations", symbolic=False)
+@contract("aldy.solutions.SolvedAllele.mutations")
 def _(self):
     requires(self.major in self.gene.alleles)
     requires(not self.minor or self.minor in self.gene.alleles[self.major].minors)
